@@ -66,6 +66,7 @@ type icRun struct {
 	content map[string]string
 	nimp    map[string]int // number of import statements actually written
 	remote  map[string]bool
+	version string
 
 	mu      sync.Mutex
 	cond    *sync.Cond
@@ -166,7 +167,12 @@ func (g *icReader) ReadHashBranch(_ context.Context, p string) ([]byte, retrieve
 	}
 	r.emit(tr.Ev{"e": "read", "f": f, "ok": true, "name": p})
 	r.cond.Broadcast()
-	return []byte(r.content[f]), retriever.Hash{}, "", nil
+	// a remote file is served from the branch or tag it was asked for (the files it imports inherit it)
+	branch := ""
+	if i := strings.Index(p, "@"); i >= 0 {
+		branch = p[i+1:]
+	}
+	return []byte(r.content[f]), retriever.Hash{}, branch, nil
 }
 
 // render lays the files out in directories and writes import statements with
@@ -196,6 +202,16 @@ func (r *icRun) render() {
 		r.byPath[p] = f
 	}
 	r.remote = map[string]bool{}
+	// every full spelling of a remote file names the same version of the repository (branch, tag with dots, branch with a slash)
+	r.version = []string{"", "@master", "@v1.0.0", "@release-2.1", "@feature/x"}[rng.Intn(5)]
+	for _, k := range r.sc.Fail {
+		// a compiled model under a versioned remote name is not recognised by its suffix (`f.pb@v1` has no known
+		// extension) and goes to the foreign importers instead: the stage that reports its failure then differs,
+		// so scenarios with such a fault name no version
+		if k == "compiled" {
+			r.version = ""
+		}
+	}
 	if r.sc.Remote {
 		// pick a file and close the set under "imports": a remote file can only name files of its own repository
 		var close func(f string)
@@ -257,9 +273,9 @@ func (r *icRun) render() {
 			}
 			switch choice {
 			case 6:
-				sp = "//" + icRepo + "/" + noext
+				sp = "//" + icRepo + "/" + noext + r.version
 			case 7:
-				sp = "//" + icRepo + "/" + tp
+				sp = "//" + icRepo + "/" + tp + r.version
 			case 0: // rooted, extension implied
 				sp = "/" + noext
 			case 1: // rooted, explicit extension
